@@ -7,6 +7,7 @@ import (
 	"reflect"
 
 	vocab "github.com/go-ap/activitypub"
+	"github.com/valyala/fastjson"
 
 	"verif/harness/vmodel"
 )
@@ -223,10 +224,46 @@ func isPrintable(b []byte) bool {
 
 // ---- layers shared by C01/C02/C03/C05 ----
 
+// passThroughHooks installs hooks that do exactly what the defaults do; a correct library cannot tell the difference.
+func passThroughHooks() (restore func()) {
+	ot, ou, oe := vocab.ItemTyperFunc, vocab.JSONItemUnmarshal, vocab.IsNotEmpty
+	vocab.ItemTyperFunc = func(t vocab.ActivityVocabularyType) (vocab.Item, error) { return vocab.GetItemByType(t) }
+	vocab.JSONItemUnmarshal = func(t vocab.ActivityVocabularyType, _ *fastjson.Value, _ vocab.Item) error {
+		return fmt.Errorf("unable to unmarshal custom type %s", t)
+	}
+	vocab.IsNotEmpty = func(it vocab.Item) bool { return vocab.NotEmpty(it) }
+	return func() { vocab.ItemTyperFunc, vocab.JSONItemUnmarshal, vocab.IsNotEmpty = ot, ou, oe }
+}
+
+// singleVariants: the same value reached in other ways - in value (non pointer) form, with pass-through hooks installed,
+// as the object of an activity and as a member of a collection's item list (the generic item path instead of the typed entry point).
+func singleVariants(c *Ctx, codec string, mode vmodel.Mode, pairs []codecPair, x any, label string, onBytes func(pair string, x any, b []byte)) {
+	roundTrip(c, codec, mode, pairs, x, label, onBytes)
+	it, isItem := x.(vocab.Item)
+	if !isItem {
+		return
+	}
+	if _, isLink := x.(*vocab.Link); !isLink {
+		roundTrip(c, codec, mode, pairs, reflect.ValueOf(x).Elem().Interface(), label+" (value form)", onBytes)
+		c.Count("variant:value-form", 1)
+	}
+	func() {
+		defer passThroughHooks()()
+		roundTrip(c, codec, mode, pairs, x, label+" (pass-through hooks)", onBytes)
+		c.Count("variant:hooks", 1)
+	}()
+	host := vocab.IRI("https://example.com/outer/" + fmt.Sprint(len(label)))
+	roundTrip(c, codec, mode, pairs, &vocab.Activity{ID: host, Type: vocab.LikeType, Object: it}, label+" (as activity.object)", onBytes)
+	roundTrip(c, codec, mode, pairs, &vocab.OrderedCollection{ID: host, Type: vocab.OrderedCollectionType, TotalItems: 2,
+		OrderedItems: vocab.ItemCollection{vocab.IRI("https://example.com/outer/first"), it}}, label+" (as collection member)", onBytes)
+	c.Count("variant:nested", 2)
+}
+
 var (
 	singleJSON  = vmodel.SingleCases(false)
 	singleExact = vmodel.SingleCases(true)
 	pairCases   = vmodel.PairCases()
+	bareCases   = vmodel.BareCases()
 )
 
 func caseGen(c *Ctx, exhaustive bool, idx int) *vmodel.Gen {
@@ -270,7 +307,7 @@ func init() {
 					x := g.BuildSingle(sc)
 					c.Count("field:"+sc.Kind.Name+"."+sc.Field.Term, 1)
 					c.Count("shape:"+sc.Shape, 1)
-					roundTrip(c, "json", vmodel.JSON, jsonPairs, x, sc.String(), nil)
+					singleVariants(c, "json", vmodel.JSON, jsonPairs, x, sc.String(), nil)
 				}},
 				{Name: "pair", N: len(pairCases), Exhaustive: true, Run: func(c *Ctx, idx int) {
 					pc := pairCases[idx]
@@ -281,6 +318,13 @@ func init() {
 				{Name: "all-names", N: 61 * 4, Exhaustive: true, Run: func(c *Ctx, idx int) {
 					x, label := allNamesValue(caseGen(c, true, idx), idx)
 					roundTrip(c, "json", vmodel.JSON, jsonPairs, x, label, nil)
+				}},
+				{Name: "bare-embedded", N: len(bareCases), Exhaustive: true, Run: func(c *Ctx, idx int) {
+					bc := bareCases[idx]
+					inner, host := caseGen(c, true, idx).BuildBare(bc, false)
+					c.Count("bare-embedded", 1)
+					roundTrip(c, "json", vmodel.JSON, jsonPairs, inner, bc.String()+" (top level)", nil)
+					roundTrip(c, "json", vmodel.JSON, jsonPairs, host, bc.String()+" (as activity.object and in tag)", nil)
 				}},
 				{Name: "deep", N: tierN(tier, 160, 3000), Run: func(c *Ctx, idx int) {
 					g := caseGen(c, false, idx)
